@@ -242,7 +242,65 @@ def r7_no_reject(c, facts, rule='C18.R7'):
         c.ok(R, {'handlers': 'errors only propagate from Workspace::read_file', 'functions': n})
 
 
+def r16_offered_then_edited(c, facts, rule='C18.R16'):
+    """prepareRename offers a range for three kinds of parent of the identifier under the cursor - a declaration, an
+    import qualifier, a variable use (on its name or on its qualifier: the range is the unqualified name either way).
+    rename must produce edits for each of them: find_definition answers for a Declaration and for a Variable parent
+    unconditionally (every path of the arm passes External::new / Core::definition), and rename hands what the finders
+    found to rename_variable / rename_qualifier unconditionally.  A finder that declines a cursor the offer accepted
+    makes rename return an empty edit: the editor renames nothing and reports success."""
+    R = c.rule(rule, 'OFFERED-THEN-EDITED: every cursor prepareRename accepts is one rename edits: the Declaration and Variable arms of find_definition answer on every path, and rename dispatches every finding')
+    fd = facts.normalised(c.anchor(R, 'oal_client::lsp::handlers::find_definition'))
+    rets = {b for b, blk in fd.blocks() if blk['term']['t'] == 'return'}
+    n = 0
+    for kind, need in (('Declaration', 'External::new'), ('Variable', 'Core::definition')):
+        casts = [(b, t) for b, t in fd.calls() if callee_of(t) and P.strip(callee_of(t)['def']).endswith('::cast') and ('parser::%s<' % kind) in (callee_of(t).get('self_ty') or t['dest'].get('ty', ''))]
+        needb = {b for b, t in P.call_blocks(fd, need)}
+        inst = {'fn': 'find_definition', 'parent': kind, 'answers_through': need}
+        if not casts or not needb:
+            c.bad(R, 'find_definition:%s-arm-missing' % kind, 'find_definition has no arm for a %s parent that answers through %s' % (kind, need), **inst)
+            continue
+        for b, t in casts:
+            sw = fd.mir['blocks'][t['target']]['term'] if t.get('target') is not None else {}
+            some = P.enum_edges(sw).get('1') if sw.get('t') == 'switch' else None
+            if some is None and P.try_arms(fd, b, t):
+                some = P.try_arms(fd, b, t)[0]          # `let var = Variable::cast(parent)?;`
+            if some is None:
+                c.bad(R, 'find_definition:%s-arm-shape' % kind, 'find_definition: the result of %s::cast is not matched directly' % kind, **inst)
+                continue
+            n += 1
+            if rets & fd.reachable_from(some, avoid=needb):
+                c.bad(R, 'find_definition:%s-arm-conditional' % kind, 'find_definition can return from its %s arm without going through %s: for some cursor inside such a parent (the qualifier of `m.item`) it finds nothing, while prepareRename offered the rename - the rename request answers with no edits' % (kind, need), **inst)
+            else:
+                c.ok(R, inst)
+    rn = facts.normalised(c.anchor(R, 'oal_client::lsp::handlers::rename'))
+    for finder, worker in (('handlers::find_definition', 'handlers::rename_variable'), ('handlers::find_qualifier', 'handlers::rename_qualifier')):
+        sites = P.call_blocks(rn, finder)
+        wb = {b for b, t in P.call_blocks(rn, worker)}
+        inst = {'fn': 'rename', 'finder': finder.split('::')[-1], 'worker': worker.split('::')[-1]}
+        if not sites or not wb:
+            c.bad(R, 'rename:%s-not-dispatched' % finder.split('::')[-1], 'rename no longer hands the result of %s to %s' % (finder, worker), **inst)
+            continue
+        for b, t in sites:
+            sw = rn.mir['blocks'][t['target']]['term'] if t.get('target') is not None else {}
+            some = P.enum_edges(sw).get('1') if sw.get('t') == 'switch' else None
+            if some is None and P.try_arms(rn, b, t):
+                some = P.try_arms(rn, b, t)[0]
+            if some is None:
+                c.skip(R, 'rename:%s' % finder.split('::')[-1], 'result not matched directly')
+                continue
+            n += 1
+            # from the Some arm, the next iteration / the return is reached only through the worker (or its error exit)
+            ends = {bb for bb, blk in rn.blocks() if blk['term']['t'] == 'return'} | {bb for bb, tt in P.call_blocks(rn, 'Iterator::next')}
+            if ends & rn.reachable_from(some, avoid=wb | P.err_blocks(rn)):
+                c.bad(R, 'rename:%s-result-dropped' % finder.split('::')[-1], 'rename can leave the arm in which %s found something without calling %s: a rename that prepareRename offered answers with no edits' % (finder, worker), **inst)
+            else:
+                c.ok(R, inst)
+    c.floor(R, 'arms checked (2 finder arms, 2 dispatches)', n, 4)
+
+
 def run(c, facts):
+    c.run(r16_offered_then_edited, facts)
     import c17 as _c17q
     c.run(lambda c: _c17q.r8_cursor_on_identifier(c, facts, rule='C18.R14'))     # rename resolves the cursor among identifiers (shared C17.R8)
     c.run(lambda c: c08.r17_name_keyed_state(c, facts, rule='C18.R15'))          # a correct rename cannot change which declarations share evaluator state
